@@ -55,20 +55,22 @@ def updateSelfHeartbeat (n : Node) : Node :=
   let s := (cs.nodeState n.cfg.selfId).getD NodeState.empty
   { n with cs := cs.setNode n.cfg.selfId { s with heartbeat := s.heartbeat + 1 } }
 
+/-- The cluster state `report_heartbeat` works on: the copy of `i` is created if it is absent,
+unless the member was garbage collected with a remembered heartbeat `≥ hb`. -/
+def reportBase (n : Node) (i : Id) (hb : Nat) : ClusterState :=
+  match n.cs.lastHeartbeatIfDeleted i with
+  | some last => if last < hb then n.cs.initIfAbsent i else n.cs
+  | none => n.cs.initIfAbsent i
+
 /-- `report_heartbeat`. -/
 def reportHeartbeat (n : Node) (i : Id) (hb : Nat) (now : Nat) : Node :=
   if i = n.cfg.selfId then n
   else
-    let shouldInit := match n.cs.lastHeartbeatIfDeleted i with
-      | some last => decide (last < hb)
-      | none => true
-    let cs := if shouldInit then n.cs.initIfAbsent i else n.cs
-    match cs.nodeState i with
+    match (n.reportBase i hb).nodeState i with
     | none => n
     | some s =>
-      let (s', upd) := s.trySetHeartbeat hb
-      let n1 := { n with cs := cs.setNode i s' }
-      if upd then { n1 with fd := n1.fd.reportHeartbeat n.cfg.fd i now } else n1
+      { n with cs := (n.reportBase i hb).setNode i (s.trySetHeartbeat hb).1,
+               fd := if (s.trySetHeartbeat hb).2 = true then n.fd.reportHeartbeat n.cfg.fd i now else n.fd }
 
 def reportHeartbeatsInDigest (n : Node) (d : Digest) (now : Nat) : Node :=
   d.foldl (fun n p => n.reportHeartbeat p.1 p.2.heartbeat now) n
@@ -170,6 +172,11 @@ def gcDeadNodes (n : Node) (now : Nat) : Node :=
 def updateNodesLiveness (n : Node) (now : Nat) : Node :=
   ((n.evalLiveness now).publishStep).gcDeadNodes now
 
+/-- the key-value loop of `reset_node_state_if_update` -/
+def catchupFold (acc : NodeState × List Event) (kvs : List (Bytes × VV)) : NodeState × List Event :=
+  kvs.foldl (fun acc kv =>
+    ((acc.1.setVersionedValue kv.1 kv.2).1, acc.2 ++ (acc.1.setVersionedValue kv.1 kv.2).2)) acc
+
 /-- `reset_node_state_if_update` (external catch-up), with the F-1 repair: the supplied max version
 is adopted and the watermark is never lowered, so that the final strict assertion holds by
 construction. Returns the events for the listeners. -/
@@ -185,9 +192,8 @@ def resetNodeStateIfUpdate (n : Node) (i : Id) (kvs : List (Bytes × VV)) (maxVe
     else if maxVersion < s.lastGc then .ok (n1, [])
     else
       let fd := n.fd.createWindow i
-      let (s1, evs) := kvs.foldl (fun (acc : NodeState × List Event) kv =>
-          let (s', e) := acc.1.setVersionedValue kv.1 kv.2
-          (s', acc.2 ++ e)) (s, [])
+      let s1 := (catchupFold (s, []) kvs).1
+      let evs := (catchupFold (s, []) kvs).2
       let supplied := kvs.map (·.1)
       let s2 := { s1 with kvs := s1.kvs.filter (fun p => supplied.contains p.1) }
       let s3 := { s2 with lastGc := max lastGc s2.lastGc, maxVersion := max maxVersion s2.maxVersion }
